@@ -321,6 +321,9 @@ impl<'a> Gen<'a> {
             v.sort_unstable();
             v
         };
+        // the contracts of Future / Stream / Sink: no poll after completion, after the end of the
+        // stream, after close (or after a panic)
+        let callable: Vec<u32> = adapters.iter().copied().filter(|a| !self.m().adapters[a].done).collect();
         let deep = frames >= self.pf.max_depth;
         let base_frames = if nested { self.nested_floor } else { 0 };
         let can_pop = frames > base_frames;
@@ -350,7 +353,7 @@ impl<'a> Gen<'a> {
             w.sleep,
             if frames == 0 && !nested && !self.no_exit.contains(&t) { w.exit } else { 0 },
             w.anew,
-            if !adapters.is_empty() && self.depth_call < 2 { w.acall } else { 0 },
+            if !callable.is_empty() && self.depth_call < 2 { w.acall } else { 0 },
             if !adapters.is_empty() { w.adrop } else { 0 },
             if self.depth_call < 2 { w.reent } else { 0 },
             if !nested && self.m().can_collect_open(t) { w.lc_collect_open } else { 0 },
@@ -487,7 +490,7 @@ impl<'a> Gen<'a> {
                 Op::ANew { a: new_adapter(), kind, span, poll_name, owned }
             }
             25 => {
-                let a = *self.rng.pick(&adapters);
+                let a = *self.rng.pick(&callable);
                 return Some(self.gen_call(t, a));
             }
             26 => Op::ADrop { a: *self.rng.pick(&adapters) },
@@ -589,6 +592,17 @@ impl<'a> Gen<'a> {
             AKind::Future => AMethod::Poll,
             AKind::Stream => AMethod::PollNext,
             AKind::Sink => *self.rng.pick(&[AMethod::PollReady, AMethod::StartSend, AMethod::PollFlush, AMethod::PollClose]),
+            AKind::Duplex => {
+                let mut ms = vec![];
+                if !ad.ended {
+                    ms.push(AMethod::PollNext);
+                    ms.push(AMethod::PollNext);
+                }
+                if !ad.closed {
+                    ms.extend([AMethod::PollReady, AMethod::StartSend, AMethod::PollFlush, AMethod::PollClose]);
+                }
+                *self.rng.pick(&ms)
+            }
         };
         let outcome = match (ad.kind, method) {
             (AKind::Future, _) => {
@@ -601,8 +615,9 @@ impl<'a> Gen<'a> {
                     *self.rng.pick(&[AOutcome::Pending, AOutcome::Value, AOutcome::Value, AOutcome::End])
                 }
             }
-            (AKind::Sink, AMethod::StartSend) => *self.rng.pick(&[AOutcome::Value, AOutcome::Value, AOutcome::Error]),
-            (AKind::Sink, _) => *self.rng.pick(&[AOutcome::Pending, AOutcome::Value, AOutcome::Value, AOutcome::Error]),
+            (AKind::Sink, AMethod::StartSend) | (AKind::Duplex, AMethod::StartSend) => *self.rng.pick(&[AOutcome::Value, AOutcome::Value, AOutcome::Error]),
+            (AKind::Duplex, AMethod::PollNext) => *self.rng.pick(&[AOutcome::Pending, AOutcome::Value, AOutcome::Value, AOutcome::End]),
+            (AKind::Sink, _) | (AKind::Duplex, _) => *self.rng.pick(&[AOutcome::Pending, AOutcome::Value, AOutcome::Value, AOutcome::Error]),
         };
         // now and then the inner object panics instead (only a live adapter; it is done afterwards)
         let outcome = if !ad.done && self.pf.w.unwind > 0 && self.rng.chance(1, 14) { AOutcome::Panic } else { outcome };
